@@ -232,7 +232,7 @@ EXTENSIONS = {
     "solves inside a batch with a molecule of another composition (UHF singlet, adaptive, Pulay/SP2).",
     "C05": " Also: N2 in the alphabet (orbital count of CH4, other composition), all six orders of mixed triples, one active "
     "state per batch row with the analytical excited gradient, and section `uhf`: every ordered pair of the alphabet + {CH3, O2} "
-    "under UHF, padded and unpadded.",
+    "under UHF, padded and unpadded; MD runs whose output request lists the molecules in another order than the batch (molid = [1, 0]).",
     "C06": " Also: the unit-system twin (bohr input with length_conversion_factor = 1).",
     "C07": " Also: forward of a differentiable job / unrelated calls / its backward, in every interleaving.  Section `uhf`: open-shell molecules under an "
     "unrestricted reference (CH3, NH2; thorough also OH, CH2, O2 and three methods), twelve parameter names as caller leaf tensors, Etot and gap, scf_backward 1 and 2, against central differences.",
